@@ -7,6 +7,7 @@ import (
 	"runtime"
 	"strings"
 	"sync"
+	"sync/atomic"
 	"testing"
 
 	"verifharness/c01"
@@ -89,6 +90,14 @@ func genCase(t *rapid.T) Case {
 		c.Schedule = append(c.Schedule, ops)
 	}
 	return c
+}
+
+// freshNames numbers the expressions made of names that no earlier compilation of the process has seen.
+var freshNames atomic.Int64
+
+type freshRun struct {
+	it  Item
+	got outcome
 }
 
 type outcome struct {
@@ -210,6 +219,7 @@ func checkCase(c Case) fw.Outcome {
 		}
 		var mu sync.Mutex
 		var problems []string
+		var fresh []freshRun
 		report := func(s string) {
 			mu.Lock()
 			problems = append(problems, s)
@@ -238,6 +248,14 @@ func checkCase(c Case) fw.Outcome {
 						if got != want[op.Item] {
 							report(fmt.Sprintf("goroutine %d: concurrent compile+run of %q gave %+v, in isolation %+v", g, it.Src, got, want[op.Item]))
 						}
+						// and an expression no compilation of this process has seen: its names are new to whatever the
+						// compiler keeps between compilations.  Its isolated result is computed after the goroutines are done.
+						n := freshNames.Add(1)
+						fit := Item{Src: fmt.Sprintf("concat(fresh%d, '|', ../fresh%d-b[k%d = 'v']/w%d)", n, n, n, n), Ctx: it.Ctx}
+						fgot, _ := isolated(fit)
+						mu.Lock()
+						fresh = append(fresh, freshRun{fit, fgot})
+						mu.Unlock()
 					case "run":
 						if m := machines[op.Item]; m != nil {
 							if got := runMachine(m, vit); got != wantVar[op.Item][vit.Var] {
@@ -269,6 +287,11 @@ func checkCase(c Case) fw.Outcome {
 		}
 		close(start)
 		wg.Wait()
+		for _, f := range fresh {
+			if w, _ := isolated(f.it); w != f.got {
+				report(fmt.Sprintf("concurrent compile+run of the new expression %q gave %+v, in isolation %+v", f.it.Src, f.got, w))
+			}
+		}
 		// the shared machines' listings are unchanged after all the runs
 		for i, m := range machines {
 			if m != nil && m.PrintMachine() != want[i].listing {
